@@ -167,6 +167,34 @@ def gen_huge(rng) -> dict:
     return {"W": W, "H": H, "mods": mods, "nets": nets}
 
 
+def near_filling(inp: dict, W: float, H: float) -> bool:
+    """region of finding C14-near-filling-disc: some movable module whose span size/2 - radius is below 1e-3 * size
+    in at least one dimension."""
+    for m in inp["mods"]:
+        if m["kind"] in ("fixed", "fterminal"):
+            continue
+        if m["kind"] == "soft":
+            a = m["area"]
+            a = sum(a.values()) if isinstance(a, dict) else a
+        elif m["kind"] == "hard":
+            a = sum(r[2] * r[3] for r in m["rects"])
+        else:
+            a = 0.0
+        r = math.sqrt(a / math.pi)
+        if W / 2 - r < 1e-3 * W or H / 2 - r < 1e-3 * H:
+            return True
+    return False
+
+
+def finding_of_raise(inp: dict, exc: Exception, W: float, H: float, first_call: bool = True):
+    """attribute a raise of spectral_layout to an open finding ONLY inside that finding's region and signature."""
+    if isinstance(exc, (AssertionError, ZeroDivisionError)) and near_filling(inp, W, H):
+        return "C14-near-filling-disc"
+    if isinstance(exc, AssertionError) and first_call and star_on_one_fixed(inp):
+        return "C14-orthogonality-assert"
+    return None
+
+
 def star_on_one_fixed(inp: dict) -> bool:
     """region of finding C14-orthogonality-assert: no net joins two movable modules and all movable modules have one and
     the same fixed module as their only neighbour."""
@@ -372,7 +400,7 @@ def check_layout_run(ctx: Ctx, inp: dict, judge: bool = True) -> None:
     if exc is not None:
         if judge:
             ctx.spec_fail("operation-raised", inp, {"op": "Spectral.spectral_layout", "exception": type(exc).__name__, "msg": str(exc)[:120]}, size=n,
-                          finding="C14-orthogonality-assert" if isinstance(exc, AssertionError) and star_on_one_fixed(inp) else None)
+                          finding=finding_of_raise(inp, exc, W, H))
         if rep is not None and rep[0] != err_of(exc):
             ctx.disagree("slayout", inp, err_of(exc), rep[0][:200], size=n)
         return
@@ -404,12 +432,21 @@ def check_layout_run(ctx: Ctx, inp: dict, judge: bool = True) -> None:
                 ctx.drift += 1
     if not judge:
         return
-    # ---- clauses
+    judge_clauses(ctx, inp, spec, W, H, nf, p, before, pos0, c0, radius)
+
+
+def judge_clauses(ctx: Ctx, inp: dict, spec, W, H, nf, p, before, pos0, c0, radius, doc_fixed=None, tag="layout") -> None:
+    """the clauses of C14 on the state of `spec` after one call of spectral_layout(Shape(W, H), nf).
+    `pos0` / `c0`: rectangle positions / centres just before the call (rigidity is relative to them);
+    `doc_fixed`: name -> (rectangle positions, centre) of the fixed modules IN THE DOCUMENT — when given, fixed modules
+    are compared with the document, not with the object's state before the call."""
+    n = len(inp["mods"])
+    size = max(W, H)
     bc = None
     try:
         if p.trials or p.sld_hooked:
             if len(p.trials) != max(nf, 1):
-                ctx.spec_fail("layout:trial-count", inp, {"trials": len(p.trials)}, size=n)
+                ctx.spec_fail(f"{tag}:trial-count", inp, {"trials": len(p.trials)}, size=n)
                 return
             best = 0
             for i, t in enumerate(p.trials):
@@ -423,54 +460,146 @@ def check_layout_run(ctx: Ctx, inp: dict, judge: bool = True) -> None:
         note_missing(ctx, "per-trial results of spectral_layout_die inside spectral_layout")
     after = snapshot(spec)
     if after != before:
-        ctx.spec_fail("layout:areas-nets-unchanged", inp, {"before": str(before)[:300], "after": str(after)[:300]}, size=n)
+        ctx.spec_fail(f"{tag}:areas-nets-unchanged", inp, {"before": str(before)[:300], "after": str(after)[:300]}, size=n)
     for i, m in enumerate(spec.modules):
         exp_c = None if bc is None else (bc[0][i] + W / 2, bc[1][i] + H / 2)
         tol = 1e-9 * size
         if m.is_fixed:
-            if rect_pos(m) != pos0[m.name]:
-                ctx.spec_fail("layout:fixed-unmoved", inp, {"module": m.name, "before": pos0[m.name], "after": rect_pos(m)}, size=n)
+            ref_pos, ref_c = (pos0[m.name], c0[m.name]) if doc_fixed is None else doc_fixed[m.name]
+            if rect_pos(m) != ref_pos:
+                ctx.spec_fail(f"{tag}:fixed-unmoved", inp, {"module": m.name, "before": ref_pos, "after": rect_pos(m)}, size=n)
             if m.is_terminal:
                 c = m.center
-                if c is None or ulps(c.x, c0[m.name][0], W / 2) > 4 or ulps(c.y, c0[m.name][1], H / 2) > 4:
-                    ctx.spec_fail("layout:fixed-unmoved", inp, {"module": m.name, "before": c0[m.name], "after": str(c)}, size=n)
+                if c is None or ref_c is None or ulps(c.x, ref_c[0], W / 2) > 4 * (1 if doc_fixed is None else 3) or \
+                        ulps(c.y, ref_c[1], H / 2) > 4 * (1 if doc_fixed is None else 3):
+                    ctx.spec_fail(f"{tag}:fixed-unmoved", inp, {"module": m.name, "before": ref_c, "after": str(c)}, size=n)
             elif m.center is not None:
-                ctx.spec_fail("layout:hard-centre-dropped", inp, {"module": m.name}, size=n)
+                ctx.spec_fail(f"{tag}:hard-centre-dropped", inp, {"module": m.name}, size=n)
             continue
         # movable: where is it?
         if m.is_hard:
             if m.center is not None and not m.is_terminal:
-                ctx.spec_fail("layout:hard-centre-dropped", inp, {"module": m.name}, size=n)
+                ctx.spec_fail(f"{tag}:hard-centre-dropped", inp, {"module": m.name}, size=n)
             rs = m.rectangles
             if len(rs) != len(pos0[m.name]) or not rs:
-                ctx.spec_fail("layout:hard-rigid", inp, {"module": m.name, "rects": len(rs)}, size=n)
+                ctx.spec_fail(f"{tag}:hard-rigid", inp, {"module": m.name, "rects": len(rs)}, size=n)
                 continue
             # rigid: one translation vector for all rectangles
             dx = [Fraction(r.center.x) - Fraction(p0[0]) for r, p0 in zip(rs, pos0[m.name])]
             dy = [Fraction(r.center.y) - Fraction(p0[1]) for r, p0 in zip(rs, pos0[m.name])]
             if max(dx) - min(dx) > Fraction(tol) or max(dy) - min(dy) > Fraction(tol):
-                ctx.spec_fail("layout:hard-rigid", inp, {"module": m.name, "dx": [float(v) for v in dx], "dy": [float(v) for v in dy]}, size=n)
+                ctx.spec_fail(f"{tag}:hard-rigid", inp, {"module": m.name, "dx": [float(v) for v in dx], "dy": [float(v) for v in dy]}, size=n)
             A = sum(Fraction(r.shape.w) * Fraction(r.shape.h) for r in rs)
             px = float(sum(Fraction(r.center.x) * Fraction(r.shape.w) * Fraction(r.shape.h) for r in rs) / A)
             py = float(sum(Fraction(r.center.y) * Fraction(r.shape.w) * Fraction(r.shape.h) for r in rs) / A)
             if exp_c is not None and (abs(px - exp_c[0]) > tol or abs(py - exp_c[1]) > tol):
-                ctx.spec_fail("layout:hard-centroid-is-centre", inp, {"module": m.name, "centroid": [px, py], "centre": list(exp_c)}, size=n)
+                ctx.spec_fail(f"{tag}:hard-centroid-is-centre", inp, {"module": m.name, "centroid": [px, py], "centre": list(exp_c)}, size=n)
         else:
             if rect_pos(m) != pos0[m.name]:
-                ctx.spec_fail("layout:soft-rectangles-untouched", inp, {"module": m.name}, size=n)
+                ctx.spec_fail(f"{tag}:soft-rectangles-untouched", inp, {"module": m.name}, size=n)
             c = m.center
             if c is None or (exp_c is not None and (c.x, c.y) != exp_c):
-                ctx.spec_fail("layout:best-of-n", inp, {"module": m.name, "centre": str(c), "expected": None if exp_c is None else list(exp_c),
+                ctx.spec_fail(f"{tag}:best-of-n", inp, {"module": m.name, "centre": str(c), "expected": None if exp_c is None else list(exp_c),
                                                         "trials": len(p.trials)}, size=n)
                 continue
             px, py = c.x, c.y
         r = radius[m.name]
         if not (math.isfinite(px) and math.isfinite(py)):
-            ctx.spec_fail("layout:finite", inp, {"module": m.name, "pos": [px, py]}, size=n)
+            ctx.spec_fail(f"{tag}:finite", inp, {"module": m.name, "pos": [px, py]}, size=n)
         elif not (r - tol <= px <= W - r + tol and r - tol <= py <= H - r + tol):
-            ctx.spec_fail("layout:disc-inside-die", inp, {"module": m.name, "pos": [px, py], "radius": r, "die": [W, H],
+            ctx.spec_fail(f"{tag}:disc-inside-die", inp, {"module": m.name, "pos": [px, py], "radius": r, "die": [W, H],
                                                           "delta_region_calls": p.delta_hits}, size=n,
                           finding="C14-delta-escape" if p.delta_hits > 0 else None)
+
+
+def gen_repeated(rng) -> dict:
+    """a netlist with fixed terminals / blocks in all four quadrants of the die and a history of 2-3 calls of
+    spectral_layout on the same object (other die, trial count, seed; a refinement with nfloorplans = 0 when allowed)."""
+    inp = gen_instance(rng)
+    W, H = inp["W"], inp["H"]
+    names = [m["name"] for m in inp["mods"] if m["kind"] not in ("fterminal", "fixed")]
+    quads = [(0.75, 0.75), (0.25, 0.75), (0.75, 0.25), (0.25, 0.25)]
+    rng.shuffle(quads)
+    for k, (qx, qy) in enumerate(quads[:rng.randint(2, 4)]):
+        x, y = W * (qx + rng.uniform(-0.2, 0.2)), H * (qy + rng.uniform(-0.2, 0.2))
+        if rng.random() < 0.4:
+            x = W if qx > 0.5 else 0.0
+        nm = f"Q{k}"
+        inp["mods"].append({"name": nm, "kind": "fterminal", "center": [x, y]})
+        inp["nets"].append([nm] + rng.sample(names, rng.randint(1, min(3, len(names)))) + [rng.choice([1.0, 2.0, 0.5])])
+    soft_only = all(m["kind"] in ("soft", "fterminal") for m in inp["mods"])
+    calls = []
+    for k in range(rng.randint(2, 3)):
+        f = 1.0 if k == 0 else rng.choice([1.0, 1.0, 1.25, 1.5])
+        nfl = rng.choice([1, 1, 2])
+        if k > 0 and soft_only and rng.random() < 0.4:
+            nfl = 0  # refinement from the current centres (allowed: every module has a centre after the first call)
+        calls.append({"W": W * f, "H": H * f, "nfl": nfl, "seed": rng.randrange(10 ** 6)})
+    inp["calls"] = calls
+    inp["stream"] = "repeated"
+    return inp
+
+
+def check_repeated(ctx: Ctx, inp: dict) -> None:
+    """spectral_layout called several times on the SAME Spectral object: every call must satisfy all clauses, fixed
+    modules being compared with the document; a later call with nfloorplans > 0 must equal a fresh object's result."""
+    n = len(inp["mods"])
+    Rectangle.undefine_epsilon()
+    try:
+        spec = SP.Spectral(yaml_text(inp))
+    except Exception as ex:
+        ctx.count("build-rejected:" + type(ex).__name__)
+        return
+    doc_fixed = {}
+    for m in inp["mods"]:
+        if m["kind"] == "fixed":
+            doc_fixed[m["name"]] = ([(float(r[0]), float(r[1])) for r in m["rects"]], None)
+        elif m["kind"] == "fterminal":
+            doc_fixed[m["name"]] = ([], (float(m["center"][0]), float(m["center"][1])))
+    radius = {m.name: math.sqrt(m.area() / math.pi) for m in spec.modules}
+    for k, call in enumerate(inp["calls"]):
+        W, H, nf = call["W"], call["H"], call["nfl"]
+        before = snapshot(spec)
+        pos0 = {m.name: rect_pos(m) for m in spec.modules}
+        c0 = {m.name: (None if m.center is None else (m.center.x, m.center.y)) for m in spec.modules}
+        pyrandom.seed(call["seed"])
+        exc = None
+        with Patched(ctx) as p:
+            try:
+                spec.spectral_layout(Shape(W, H), nf, False)
+            except Exception as ex:
+                exc = ex
+        ctx.case("repeated", (yaml_text(inp), k, W, H, nf, call["seed"]), True)
+        ctx.count(f"repeated-call-{k + 1}-nfl{min(nf, 1)}")
+        if exc is not None:
+            ctx.spec_fail("operation-raised", inp, {"op": f"Spectral.spectral_layout (call #{k + 1} on the same object)",
+                                                    "exception": type(exc).__name__, "msg": str(exc)[:120], "call": call}, size=n,
+                          finding=finding_of_raise(inp, exc, W, H, first_call=(k == 0)))
+            return
+        nfail = len(ctx.spec_failures)
+        judge_clauses(ctx, inp, spec, W, H, nf, p, before, pos0, c0, radius, doc_fixed=doc_fixed, tag=f"repeated#{k + 1}")
+        if len(ctx.spec_failures) > nfail:
+            return
+        if k > 0 and nf > 0:  # the same arguments on a fresh object
+            Rectangle.undefine_epsilon()
+            try:
+                fresh = SP.Spectral(yaml_text(inp))
+                pyrandom.seed(call["seed"])
+                fresh.spectral_layout(Shape(W, H), nf, False)
+            except Exception as ex:
+                ctx.spec_fail(f"repeated#{k + 1}:same-as-fresh-object", inp, {"fresh object raised": type(ex).__name__}, size=n)
+                return
+            tol = 1e-9 * max(W, H)
+            for a, b in zip(spec.modules, fresh.modules):
+                ca = None if a.center is None else (a.center.x, a.center.y)
+                cb = None if b.center is None else (b.center.x, b.center.y)
+                same_c = (ca is None) == (cb is None) and (ca is None or vclose(ca, cb, tol))
+                ra, rb = rect_pos(a), rect_pos(b)
+                same_r = len(ra) == len(rb) and all(vclose(x, y, tol) for x, y in zip(ra, rb))
+                if not (same_c and same_r):
+                    ctx.spec_fail(f"repeated#{k + 1}:same-as-fresh-object", inp,
+                                  {"module": a.name, "repeated": [ca, ra], "fresh": [cb, rb], "call": call}, size=n)
+                    return
 
 
 def check_sld(ctx: Ctx, inp: dict) -> None:
@@ -759,10 +888,10 @@ def run(ctx: Ctx) -> None:
     rng = ctx.rng
     ctx.rule = ("instances: die 5..25 (integer and decimal sizes), 4..7 (thorough 9) movable modules (soft with/without centre, area as a number or split over region types incl. nothing in `_`; hard with 1-3 "
                 "rectangles) + 0..3 fixed modules (rectangles) + 0..4 fixed terminals with a centre (on the border, in corners, inside), connected net list (random spanning tree, chain or star + extra nets of arity "
-                "2..5, default and explicit weights), every disc fits; 25-30% of the runs use a huge design (the same scaled by 2^30..2^32, or 420-520 modules on 2.5e7 x 2e7) for which epsilon >= 1 and the loop is not entered; runs: Python `random` seeded per run, nfloorplans 0..3 (0 = use the "
+                "2..5, default and explicit weights), every disc fits (12% of the ordinary layout runs give one soft module a disc that fills the die up to a margin k in 0..5e-2); 25-30% of the runs use a huge design (the same scaled by 2^30..2^32, or 420-520 modules on 2.5e7 x 2e7) for which epsilon >= 1 and the loop is not entered; runs: Python `random` seeded per run, nfloorplans 0..3 (0 = use the "
                 "given centres), draws captured. Streams: unit ops (normalize F/Q, ortho, andp, nsum, centroids, swl, recenter F/Q), `sld` = "
                 "whole spectral_layout_die runs, `slayout` = whole spectral_layout runs (+ a few with movable terminals, correspondence "
-                "only), `delta-probe` = normalize on vectors with entries at/below 1e-9.")
+                "only), `delta-probe` = normalize on vectors with entries at/below 1e-9; `repeated` = 2-3 calls of spectral_layout on the SAME object (other die / trials / seed, nfloorplans = 0 refinement when every module has a centre) on netlists with fixed terminals in all quadrants: every call judged by all clauses with fixed modules compared with the document, later calls compared with a fresh object.")
     ctx.assumptions += [
         "admissible input: >= 4 movable modules, every module on some net, connected, every disc fits the die (radius <= size/2), "
         "fixed modules inside the die; movable terminals are outside the property's quantifier (they make recenter_rectangles divide by zero) "
@@ -787,7 +916,14 @@ def run(ctx: Ctx) -> None:
         inp["stream"] = "sld"
         check_sld(ctx, inp)
     t0 = time.time()
-    budget = 30 if ctx.tier == "quick" else 500
+    budget = 9 if ctx.tier == "quick" else 100
+    for i in range(ctx.n(12, 300)):
+        if time.time() - t0 > min(budget * ctx.budget, max(budget, 40)):
+            ctx.notes.append(f"repeated stream stopped by its time budget after {i} instances")
+            break
+        check_repeated(ctx, gen_repeated(rng))
+    t0 = time.time()
+    budget = 23 if ctx.tier == "quick" else 450
     for i in range(ctx.n(70, 2000)):
         if time.time() - t0 > min(budget * ctx.budget, max(budget, 150)):
             ctx.notes.append(f"slayout stream stopped by its time budget after {i} runs")
@@ -797,6 +933,13 @@ def run(ctx: Ctx) -> None:
         if not terminals and rng.random() < 0.25:
             inp = gen_huge(rng)
             ctx.count("huge-design(loop not entered)")
+        elif not terminals and rng.random() < 0.12:
+            # a movable disc that (nearly) fills the die: admissible ("discs fit"), region of C14-near-filling-disc below 1e-3
+            soft = [m for m in inp["mods"] if m["kind"] == "soft"]
+            if soft:
+                k = rng.choice([0.0, 1e-9, 1e-6, 1e-5, 1e-4, 5e-4, 1.5e-3, 3e-3, 1e-2, 5e-2])
+                rng.choice(soft)["area"] = math.pi * (min(inp["W"], inp["H"]) / 2) ** 2 * (1 - k)
+                ctx.count("near-filling-disc" + ("(in finding region)" if near_filling(inp, inp["W"], inp["H"]) else "(margin >= 1e-3)"))
         inp["seed"] = rng.randrange(10 ** 6)
         inp["nfl"] = rng.choice([1, 1, 2, 3, 5 if ctx.tier != "quick" else 2])
         if rng.random() < 0.15:
@@ -837,7 +980,9 @@ def replay(ctx: Ctx, body: dict) -> None:
                 if not isinstance(impl, str) and not inp["fixed"][i] and abs(inp["x"][i]) > 10e-10 and abs(y[i]) > inp["span"][i] * (1 + 1e-12):
                     ctx.spec_fail("normalize:post", inp, {"i": i}, size=1)
         return
-    if inp.get("stream") == "sld":
+    if inp.get("stream") == "repeated":
+        check_repeated(ctx, inp)
+    elif inp.get("stream") == "sld":
         check_sld(ctx, inp)
     else:
         check_layout_run(ctx, inp, judge=inp.get("judge", True))
